@@ -49,6 +49,8 @@ def run(chk):
                 '(event kind, depth bucket, context class, null-handler class) and (depth class, include class, ...) hashes')
     chk.assumptions += ['files are well-formed text files for this parser (magic first line, lines < 20480 bytes ending in newline); other files belong to C11',
                         'states returned by libast\'s own null handler are not asserted (opaque); state carried in slot 0 across two parses is not asserted']
+    chk.require('cyclic_include_lines', 100)
+    chk.require('handler_returned_null_state', 1000)
     for name, n in (('depth_0_3', 20), ('depth_9_11', 20), ('depth_19_21', 20), ('depth_39_41', 20), ('depth_79_81', 20), ('depth_159_161', 20), ('depth_250_255', 20),
                     ('reached_depth_250_plus', 20), 
                     ('include_chain_9_plus', 20), ('include_chain_19_plus', 10),
